@@ -610,8 +610,10 @@ def spell_number(x, rng, tags=None):
     return text, float(text)
 
 
-def spell(v, rng, tags=None, wsp=0.25):
+def spell(v, rng, tags=None, wsp=0.25, plain_numbers=False):
     """Returns (text, expected value) — a random conforming spelling of v."""
+    if plain_numbers and isinstance(v, (int, float)) and not isinstance(v, bool):
+        return dump_number(v), v
     if v is None:
         return "null", None
     if v is True:
@@ -626,7 +628,7 @@ def spell(v, rng, tags=None, wsp=0.25):
         parts = []
         exp = []
         for x in v:
-            t, e = spell(x, rng, tags, wsp)
+            t, e = spell(x, rng, tags, wsp, plain_numbers)
             parts.append(ws(rng, wsp) + t + ws(rng, wsp))
             exp.append(e)
         if not parts:
@@ -636,7 +638,7 @@ def spell(v, rng, tags=None, wsp=0.25):
         parts = []
         exp = {}
         for k, x in v.items():
-            t, e = spell(x, rng, tags, wsp)
+            t, e = spell(x, rng, tags, wsp, plain_numbers)
             parts.append(ws(rng, wsp) + spell_string(k, rng, tags) + ws(rng, wsp) + ":" + ws(rng, wsp) + t + ws(rng, wsp))
             exp[k] = e
         if not parts:
